@@ -2,7 +2,7 @@
 import io
 import struct
 
-from vlib import gen, scen, wire
+from vlib import gen, scen, transports, wire
 
 PROP = "C03"
 LEVEL = "exploration"
@@ -31,6 +31,8 @@ def gen_cases(tier, seed):
     for i in range(nc):
         yield {"kind": "corrupt", "seed": "%d:%d" % (seed, i), "impl": ("sync", "async")[i % 2], "op": ["shell", "streaming_shell", "pull", "list", "stat", "exec_out"][i % 6],
                "how": ["byte", "bit", "sum-byte", "sum-bit", "sum-zero", "sum-ff", "zeros-bit"][(i // 6) % 7]}
+    for i in range(120 if tier == "quick" else 1500):
+        yield {"kind": "corrupt2", "seed": "%d:x%d" % (seed, i), "impl": ("sync", "async")[i % 2]}
     nb = 130 if tier == "quick" else 1000
     for i in range(nb):
         # quick: a seed-dependent window of the 234 systematic words; thorough: all of them for both implementations, then random words
@@ -50,9 +52,18 @@ def _norm(sc):
     return sc
 
 
-def _run(impl, sc, seed, frag, empty, offsets=None):
+def _run(impl, sc, seed, frag, empty, offsets=None, emptysum=False, call_cost=None):
     dims = dict(sc["dims"], frag=frag, empty_rate=empty)
-    sess = gen.make_session(impl, dims, seed, frag_offsets=offsets)
+    sess = gen.make_session(impl, dims, seed, frag_offsets=offsets, **({"call_cost": call_cost} if call_cost else {}))
+    if emptysum:
+        # a device that leaves something other than 0 in the data_check word of packets WITHOUT a payload (there is nothing to check): they are packets like any other
+        def before_emit(pkt, raw):
+            if pkt.payload:
+                return None
+            b = bytearray(raw)
+            b[16:20] = struct.pack("<I", (pkt.index * 2654435761 + 1) & 0xFFFFFFFF or 7)
+            return bytes(b)
+        sess.sim.before_emit = before_emit
     sess.sim.wrte_delay = max(sess.sim.wrte_delay, sc["dims"].get("wrte_delay", 0.0))
     r = scen.Runner(sess, sc)
     try:
@@ -89,12 +100,106 @@ def _single_op(case, rng):
     return {"dims": dims, "steps": [step]}
 
 
+def run_corrupt2(case, rng, stats):
+    """several streaming_shell generators of one thread / task consumed alternately; ONE payload of one of them is damaged on the wire. Whichever generator's
+    read meets it, the damaged payload is never handed to anybody: the damaged stream yields nothing at or beyond that position, the others only their own chunks."""
+    from vlib import vclock
+    impl = case["impl"]
+    dims = gen.common_dims(rng)
+    dims["noise"] = []
+    dims["remote"] = rng.choice(["swap", "same", "small", "random"])
+    sess = gen.make_session(impl, dims, case["seed"])
+    viol = []
+    try:
+        n = rng.choice([2, 2, 3])
+        scripts = []
+        for i in range(n):
+            chunks = [("g%d-%d:" % (i, k)).encode() + bytes(rng.getrandbits(8) for _ in range(rng.choice([0, 1, 5, 40]))) for k in range(rng.randint(1, 4))]
+            sess.sim.scripts[b"shell:g%d" % i] = list(chunks)
+            scripts.append(chunks)
+        ci = rng.randrange(n)
+        ck = rng.randrange(len(scripts[ci]))
+        pos = rng.randrange(len(scripts[ci][ck]))
+        state = {}
+
+        def before_emit(pkt, raw):
+            if pkt.cmd == "WRTE" and bytes(pkt.payload) == scripts[ci][ck] and "done" not in state:
+                b = bytearray(raw)
+                b[24 + pos] ^= 0x55
+                state["done"] = bytes(b[24:])
+                return bytes(b)
+            return None
+        sess.sim.before_emit = before_emit
+        got = [[] for _ in range(n)]
+        done = [False] * n
+        errors = []
+        vclock.install(sess.clock)
+        gens = [sess.dev.streaming_shell("g%d" % i, decode=False) for i in range(n)]
+        if impl == "sync":
+            def advance(i):
+                try:
+                    got[i].append(next(gens[i]))
+                except StopIteration:
+                    done[i] = True
+        else:
+            def advance(i):
+                async def one():
+                    try:
+                        got[i].append(await gens[i].__anext__())
+                    except StopAsyncIteration:
+                        done[i] = True
+                sess.loop.run_until_complete(one())
+        guard = 0
+        switches = 0
+        last = None
+        while not all(done) and guard < 100:
+            guard += 1
+            live = [i for i in range(n) if not done[i]]
+            must = [i for i in live if len(got[i]) >= len(scripts[i])]
+            i = must[0] if must else rng.choice(live)
+            switches += 1 if (last is not None and last != i) else 0
+            last = i
+            try:
+                advance(i)
+            except Exception as e:  # noqa
+                errors.append((i, type(e).__name__, str(e)[:80]))
+                done[i] = True
+            except transports.Hang:
+                errors.append((i, "Hang", ""))
+                done[i] = True
+        where = "%s, %d interleaved generators (remote ids %s), chunk %d of generator %d damaged at payload byte %d" % (impl, n, dims["remote"], ck, ci, pos)
+        if "done" not in state:
+            return {"sig": None, "violations": [], "stats": stats}
+        stats["corruptions"] += 1
+        stats["corruptions_among_interleaved_streams"] = 1
+        for i in range(n):
+            for k, c in enumerate(got[i]):
+                if bytes(c) == state["done"]:
+                    viol.append({"mechanism": "corrupted-payload-delivered", "detail": "%s: generator %d yielded the damaged payload as its item %d" % (where, i, k)})
+                elif k >= len(scripts[i]) or bytes(c) != scripts[i][k]:
+                    viol.append({"mechanism": "interleaved-wrong-output", "detail": "%s: generator %d item %d is %r, the device wrote %r" % (where, i, k, bytes(c)[:20], (scripts[i][k] if k < len(scripts[i]) else None))})
+        if len(got[ci]) > ck:
+            viol.append({"mechanism": "corrupted-payload-delivered", "detail": "%s: generator %d was handed %d items: something was delivered for the damaged packet" % (where, ci, len(got[ci]))})
+        names = [e[1] for e in errors]
+        if "InvalidChecksumError" not in names and not viol:
+            viol.append({"mechanism": "no-checksum-error", "detail": "%s: nobody got an InvalidChecksumError (errors: %r; items per generator %r)" % (where, errors[:3], [len(g) for g in got])})
+        reader = next((e[0] for e in errors if e[1] == "InvalidChecksumError"), None)
+        if reader is not None and reader != ci:
+            stats["damaged_packet_met_by_another_stream"] = 1
+        sig = "corrupt2|%s|%d|%s|%d|%d|%s" % (impl, n, dims["remote"], ck, min(pos, 8), reader == ci)
+        sample = {"case": case, "where": where, "errors": errors[:3], "items": [len(g) for g in got]} if case["seed"].endswith("x5") else None
+        return {"sig": sig, "violations": viol[:3], "stats": stats, "sample": sample}
+    finally:
+        sess.dispose()
+
+
 def run_case(case):
     kind = case["kind"]
     rng = gen.rng_for("C03", kind, case["seed"])
     viol = []
     stats = {"reads_checked": 0, "corruptions": 0, "badcmds": 0, "offsets_cut": 0, "pairs_compared": 0, "packets_compared": 0}
     if kind == "diff":
+        trickle = False
         sc = _norm(scen.gen_scenario(rng))
         if rng.random() < 0.15:
             # a slow device: one WRTE every 4 virtual seconds, so that operations last longer than read_timeout_s (10 s) although no single wait does;
@@ -106,8 +211,22 @@ def run_case(case):
                 if st.get("split") == "bytes1":
                     st["split"] = "random"
             stats["slow_device_pairs"] = 1
+            if rng.random() < 0.4:
+                # ... and a slow link as well: 8 s of silence before every device WRTE, headers in one piece, payloads in many fragments of 0.3 s each
+                sc["dims"]["wrte_delay"] = 8.0
+                trickle = True
+                # (operations without a limit of their own on the whole exchange: a push waits at most read_timeout_s for its acknowledgement, whatever else arrives)
+                sc["steps"] = [st for st in sc["steps"] if st["op"] in ("list", "stat", "pull", "streaming_shell") and not st.get("timeout_s") and not st.get("cb")] or \
+                    [{"op": "streaming_shell", "cmd": "slow", "decode": False, "cls": "ascii", "seed": "c03slow", "take": None}]
+                stats["slow_device_slow_link_pairs"] = 1
         ref = _run(case["impl"], sc, case["seed"], "whole", 0.0)
-        got = _run(case["impl"], sc, case["seed"], case["frag"], case["empty"])
+        es = case["seed"].endswith("7") or case["seed"].endswith("3")
+        if es:
+            stats["pairs_with_unchecked_checksum_words"] = 1
+        if trickle:
+            got = _run(case["impl"], sc, case["seed"], "trickle", 0.0, emptysum=es, call_cost=0.3)
+        else:
+            got = _run(case["impl"], sc, case["seed"], case["frag"], case["empty"], emptysum=es)
         for m in (ref[2], got[2]):
             stats["reads_checked"] += m.counts["reads_checked"]
             stats["max_read"] = max(stats.get("max_read", 0), m.max_read)
@@ -124,6 +243,8 @@ def run_case(case):
         sig = "diff|%s|%s|%s|%s" % (case["impl"], ",".join(s["op"] for s in sc["steps"]), case["frag"], case["empty"]) if ref[4] else None
         sample = {"case": case, "ops": [s["op"] for s in sc["steps"]], "device_bytes": ref[3]} if case["seed"].endswith(":1") else None
         return {"sig": sig, "violations": viol[:5], "stats": stats, "sample": sample}
+    if kind == "corrupt2":
+        return run_corrupt2(case, rng, stats)
     if kind == "cut":
         sc = _norm(scen.gen_scenario(rng, nsteps=rng.randint(1, 3), ops=["shell", "streaming_shell", "list", "stat", "pull", "push"]))
         for st in sc["steps"]:
